@@ -147,6 +147,11 @@ def gen_cond(g, cls, R, Dy, Dx, ctor=None):
     elif cls in ("full", "diag"):
         d["M"] = [g.mat(Dy, Dx) for _ in range(R)]
         d["b"] = g.mat(R, Dy) if g.randint(0, 3) else None
+    k = g.randint(0, 9)
+    if k == 0 and cls in ("full", "diag"):
+        d["f32_Mb"] = True                               # M, b handed over as float32 arrays (when exactly representable)
+    elif k == 1 and cls != "nn":
+        d["np_params"] = True; d["twice"] = True         # numpy parameters, the scenario run twice on the same object
     # every fifth conditional gets SPECIAL values: a zero row / a zero matrix M, zero offset, identity noise, identical components
     if g.randint(0, 4) == 0:
         kind = g.choice(["zero_M_row", "zero_M", "zero_b", "identity_Sig", "equal_comps"])
@@ -255,23 +260,37 @@ def impl_cond(d):
     return o, kw
 
 
+def _flat(x):
+    for y in x:
+        if isinstance(y, (list, tuple)):
+            yield from _flat(y)
+        else:
+            yield y
+
+
 def _build_cond(d):
     I = gtlib.impl()
     cm = I["conditional"]
     jnp = I["jnp"]
     cls = d["cls"]
     kw = {}
+    arr = gtlib.fl if d.get("np_params") else jarr
+    def mb(x):
+        """M and b: numpy, float32 (when every entry is exactly representable) or float64 jax arrays"""
+        if d.get("f32_Mb") and all(Fr(float(jnp.float32(float(v)))) == v for v in _flat(x)):
+            return jnp.array(gtlib.fl(x), dtype=jnp.float32)
+        return arr(x)
     if d["ctor"] == "Sigma":
-        kw = dict(Sigma=jarr(d["Sig"]))
+        kw = dict(Sigma=arr(d["Sig"]))
     elif d["ctor"] == "Lambda":
         kw = dict(Lambda=jarr([finv(S) for S in d["Sig"]]))
     else:
         kw = dict(Sigma=jarr(d["Sig"]), Lambda=jarr([finv(S) for S in d["Sig"]]),
                   ln_det_Sigma=jnp.array([math.log(fdet(S)) for S in d["Sig"]]))
     if cls == "full":
-        return cm.ConditionalGaussianPDF(M=jarr(d["M"]), b=None if d["b"] is None else jarr(d["b"]), **kw), {}
+        return cm.ConditionalGaussianPDF(M=mb(d["M"]), b=None if d["b"] is None else mb(d["b"]), **kw), {}
     if cls == "diag":
-        return cm.ConditionalGaussianDiagPDF(M=jarr(d["M"]), b=None if d["b"] is None else jarr(d["b"]), **kw), {}
+        return cm.ConditionalGaussianDiagPDF(M=mb(d["M"]), b=None if d["b"] is None else mb(d["b"]), **kw), {}
     if cls == "ident":
         return cm.ConditionalIdentityGaussianPDF(**kw), {}
     if cls == "identdiag":
@@ -338,6 +357,8 @@ def gen_pdfv(g, R, D, diag=False, ctor=None, history=False):
     d["ctor"] = ctor or g.choice(["Sigma", "Sigma", "Sigma+Lambda", "all"])
     if g.randint(0, 5) == 0:
         d["f32_mu"] = True          # the mean handed over as a float32 array
+    elif g.randint(0, 7) == 0:
+        d["np_params"] = True; d["twice"] = True      # numpy parameters, the scenario run twice on the same object
     if history and g.randint(0, 3) == 0:
         # built with OTHER components at some positions, which update(idx, new) then replaces in place
         k = g.randint(1, R)
@@ -345,6 +366,7 @@ def gen_pdfv(g, R, D, diag=False, ctor=None, history=False):
         other = C.gen_pdf(g, R, D, diag=diag)
         d["upd"] = dict(pos=pos, idx=[(r - R if g.randint(0, 1) else r) for r in pos],
                         Sig=[other["Sig"][r] for r in pos], mu=[other["mu"][r] for r in pos])
+        d.pop("np_params", None)        # update() uses the jax .at[] interface: it is defined for jax arrays only
     return d
 
 
@@ -389,7 +411,8 @@ def _build_pdfv(p):
     I = gtlib.impl()
     jnp = I["jnp"]
     cls = I["pdf"].GaussianDiagPDF if p.get("diag") else I["pdf"].GaussianPDF
-    kw = dict(Sigma=jarr(p["Sig"]), mu=jarr(p["mu"]))
+    arr = gtlib.fl if p.get("np_params") else jarr        # numpy arrays are accepted too; an in-place numpy operation would show
+    kw = dict(Sigma=arr(p["Sig"]), mu=arr(p["mu"]))
     if p.get("f32_mu") and all(Fr(float(jnp.float32(float(v)))) == v for m in p["mu"] for v in m):
         # the mean as a float32 array (every value is exactly representable): results must still be float64-exact, the
         # narrower dtype must not be inherited downstream  (an integer-typed mean is outside the library's Float[...] contract)
